@@ -340,6 +340,25 @@ impl<'s, T: Tk> Kind<'s> for &'s [T] {
     }
 }
 
+pub type CharStream = chumsky::input::Stream<std::vec::IntoIter<char>>;
+impl<'s> Kind<'s> for CharStream {
+    type Tok = char;
+    type Spn = SimpleSpan;
+    const HAS_SLICE: bool = false;
+    fn slice_node<R: Er<'s, Self>>(_p: BP<'s, Self, R>) -> BP<'s, Self, R> {
+        unreachable!("Stream has no slices")
+    }
+    fn map_slice_node<R: Er<'s, Self>>(_p: BP<'s, Self, R>) -> BP<'s, Self, R> {
+        unreachable!("Stream has no slices")
+    }
+    fn slice_node_explicit<R: Er<'s, Self>>(_p: BP<'s, Self, R>) -> BP<'s, Self, R> {
+        unreachable!("Stream has no slices")
+    }
+}
+pub fn char_stream(toks: &[char]) -> CharStream {
+    chumsky::input::Stream::from_iter(toks.to_vec().into_iter())
+}
+
 // ---------------------------------------------------------------------------------------------
 // extension parser with separately written parse / check paths
 
@@ -404,6 +423,9 @@ pub struct Bld<'s, I: Kind<'s>, R: Er<'s, I>> {
     pub rec_style: RecStyle,
     /// C04: build every value-eliding combinator in its value-building formulation
     pub explicit: bool,
+    /// C18: wrap every node in a map_with that records the user state (and make select / fold_with
+    /// callbacks record it too)
+    pub obs_state: bool,
     recs: HashMap<u8, BP<'s, I, R>>,
 }
 
@@ -415,16 +437,25 @@ macro_rules! toks {
 
 impl<'s, I: Kind<'s>, R: Er<'s, I>> Bld<'s, I, R> {
     pub fn new(g: &G, observed: bool) -> Self {
-        Bld { ids: number(g), observed, rec_style: RecStyle::Func, explicit: false, recs: HashMap::new() }
+        Bld { ids: number(g), observed, rec_style: RecStyle::Func, explicit: false, obs_state: false, recs: HashMap::new() }
     }
 
     pub fn build(&mut self, g: &G) -> BP<'s, I, R> {
         let p = self.node(g);
-        if self.observed {
+        let p = if self.observed {
             let id = self.ids[&(g as *const G)];
             p.map_with(move |v, e| {
                 let (s, e2) = e.span().se();
                 Val::obs(id, s, e2, v)
+            })
+            .boxed()
+        } else {
+            p
+        };
+        if self.obs_state {
+            p.map_with(|v, e| {
+                let st = e.state();
+                Val::St(st.n, st.h, Box::new(v))
             })
             .boxed()
         } else {
@@ -468,17 +499,31 @@ impl<'s, I: Kind<'s>, R: Er<'s, I>> Bld<'s, I, R> {
             }
             Sink::FoldlWith(init) => {
                 let init = self.build(init);
-                init.foldl_with(rep, |a, b, e| {
+                let os = self.obs_state;
+                init.foldl_with(rep, move |a, b, e| {
                     let (s, e2) = e.span().se();
-                    Val::pair(Val::Span(s, e2), Val::pair(a, b))
+                    let v = Val::pair(Val::Span(s, e2), Val::pair(a, b));
+                    if os {
+                        let st = e.state();
+                        Val::St(st.n, st.h, Box::new(v))
+                    } else {
+                        v
+                    }
                 })
                 .boxed()
             }
             Sink::FoldrWith(tail) => {
                 let tail = self.build(tail);
-                rep.foldr_with(tail, |a, b, e| {
+                let os = self.obs_state;
+                rep.foldr_with(tail, move |a, b, e| {
                     let (s, e2) = e.span().se();
-                    Val::pair(Val::Span(s, e2), Val::pair(a, b))
+                    let v = Val::pair(Val::Span(s, e2), Val::pair(a, b));
+                    if os {
+                        let st = e.state();
+                        Val::St(st.n, st.h, Box::new(v))
+                    } else {
+                        v
+                    }
                 })
                 .boxed()
             }
@@ -565,6 +610,19 @@ impl<'s, I: Kind<'s>, R: Er<'s, I>> Bld<'s, I, R> {
             NoneOf(s) => none_of::<_, I, Ex<R>>(toks!(s, I))
                 .map(|t: I::Tok| Val::Tok(t.to_char()))
                 .boxed(),
+            Select(s) if self.obs_state => {
+                let set = s.clone();
+                chumsky::primitive::select::<_, I, Val, Ex<R>>(move |t: I::Tok, e| {
+                    let c = t.to_char();
+                    if set.contains(c) {
+                        let st = e.state();
+                        Some(Val::St(st.n, st.h, Box::new(Val::Tok(c))))
+                    } else {
+                        None
+                    }
+                })
+                .boxed()
+            }
             Select(s) => {
                 let set = s.clone();
                 chumsky::primitive::select::<_, I, Val, Ex<R>>(move |t: I::Tok, _e| {
@@ -995,6 +1053,11 @@ pub fn build<'s, I: Kind<'s>, R: Er<'s, I>>(g: &G, observed: bool) -> BP<'s, I, 
 pub fn build_explicit<'s, I: Kind<'s>, R: Er<'s, I>>(g: &G) -> BP<'s, I, R> {
     let mut b = Bld::<'s, I, R>::new(g, false);
     b.explicit = true;
+    b.build(g)
+}
+pub fn build_obs_state<'s, I: Kind<'s>, R: Er<'s, I>>(g: &G, observed: bool) -> BP<'s, I, R> {
+    let mut b = Bld::<'s, I, R>::new(g, observed);
+    b.obs_state = true;
     b.build(g)
 }
 pub fn build_with<'s, I: Kind<'s>, R: Er<'s, I>>(g: &G, observed: bool, rs: RecStyle) -> BP<'s, I, R> {
